@@ -250,10 +250,12 @@ PROPS = {
                 "copy of the history. Every case is non-trivial (each runs VerifyMergeable and 6 verifications)",
         "theorems": ["C19_prediction_meaning", "C19_outsider_changes_nothing", "C19_unsigned_is_outsider", "C19_unauthorised_is_outsider",
                      "C19_refuted_no_approvals_never_possible", "C19_refuted_threshold_one_verifies", "C19_refuted_K6", "C19_refuted_K9",
-                     "C19_refuted_shared_keys"],
+                     "C19_refuted_shared_keys", "C19_uncounted_authorised_recorder_verifies", "C19_counted_recorder_gains_nothing",
+                     "C19_approvals_alone"],
         "trusted": [
-            "partial: the clause 'signature needed => verifies exactly for authorised, not yet counted recorders' and the lift of the verifier-level "
-            "theorems through the verification loop are evaluated per case on the implementation's answers (c19_check), not proved",
+            "partial: the 'signature needed' clause is proved at the verifier for principals holding one key each (shared keys: refuted); the lift "
+            "of the verifier-level theorems through the verification loop and the global-rule reduction are evaluated per case on the "
+            "implementation's answers (c19_check), not proved",
             "file rules, code-review approvals (app attestations) and non-fast-forward three-way merges (GetMergeTree on diverged branches) are not generated",
             "principals sharing keys are excluded from the histories (State.allPrincipals lists principals in map order); the shared-key refutation is a verifier-level theorem tied by the C05 correspondence",
         ],
